@@ -364,6 +364,20 @@ func checkMutant(r *ev.Run, t *lrref.Table, toks []ebnfref.Token, family string)
 				}
 			}
 		}
+		// ... nor does text that is no token at all: a NUL character glued to the offending token or after a blank, an
+		// unterminated string or comment, a stray character (the scanner must hand over the offending token before it
+		// looks at what follows)
+		if j < len(toks) && !s.ok && lay.name != "comments" {
+			t0, _ := ebnfref.Render(toks[:j+1], lay.sep, "")
+			for _, raw := range []string{"\x00", "\x00 b ;", " \x00", "\n\x00\n", " \"open", " /* open", " #", "\n~ ;"} {
+				t2 := t0 + raw
+				s2 := runSpec(t2)
+				r.Add("suffix_variants", 1)
+				if s2.pan == nil && s2.err != s.err {
+					r.Report("", fmt.Sprintf("the diagnostic depends on what follows the offending token:\n%q\nvs, with the text %q after the offending token,\n%q\n%q", s.err, raw, s2.err, t2), input{Text: t2, Tokens: kindsStr, Bad: j})
+				}
+			}
+		}
 		// the prefix before the offending token is innocent: it has an accepted completion
 		if lay.name == "one-line" && j > 0 && j <= len(toks) {
 			r.Add("prefix_witness_searches", 1)
